@@ -586,6 +586,10 @@ inductive GOp where
   | addMany (sec pt : String) (rules : List Rule)
   | removeMany (sec pt : String) (rules : List Rule)
   | removeFiltered (sec pt : String) (idx : Nat) (vals : List String)
+  | load
+  | loadFiltered (fp fg : List String)
+  | clear
+  | build
 
 def GOp.apply (e : Enforcer) : GOp → Enforcer
   | .add sec pt rule => (e.addPolicy sec pt rule).1
@@ -593,6 +597,10 @@ def GOp.apply (e : Enforcer) : GOp → Enforcer
   | .addMany sec pt rules => (e.addPolicies sec pt rules).1
   | .removeMany sec pt rules => (e.removePolicies sec pt rules).1
   | .removeFiltered sec pt idx vals => (e.removeFiltered sec pt idx vals).1
+  | .load => e.loadPolicy.1
+  | .loadFiltered fp fg => (e.loadFilteredPolicy fp fg).1
+  | .clear => e.clearPolicy.1
+  | .build => e.buildRoleLinks.1
 
 /-- the calls the invariant is stated for: section `p` or `g`, and a grouping rule handed to an addition has
 at least as many fields as the role definition -/
@@ -602,6 +610,10 @@ def GOp.Ok (e : Enforcer) : GOp → Prop
   | .addMany sec _ rules => sec = "p" ∨ (sec = "g" ∧ ∀ d, e.store.g = [d] → ∀ r ∈ rules, d.arity ≤ r.length)
   | .removeMany sec _ _ => sec = "p" ∨ sec = "g"
   | .removeFiltered sec _ _ _ => sec = "p" ∨ sec = "g"
+  | .load => True
+  | .loadFiltered _ _ => True
+  | .clear => True
+  | .build => True
 
 theorem linkUpdate_flags (x : Enforcer) (c : Bool) (sec pt : String) (ins : Bool) (rules : List Rule) (ret : Res) :
     (x.linkUpdate c sec pt ins rules ret).1.autoSave = x.autoSave ∧
@@ -648,8 +660,277 @@ theorem flags_removeFiltered (e : Enforcer) (sec pt : String) (idx : Nat) (vals 
   rw [(linkUpdate_flags _ _ _ _ _ _ _).1, (linkUpdate_flags _ _ _ _ _ _ _).2]
   split <;> simp [Enforcer.emit, hs] <;> split <;> simp [hs]
 
-/-- **the graph reflects the stored grouping rules after every history** of the five management calls — single
-and batch additions and removals, filtered removals (auto-build on; the adapter not involved: auto-save off —
+/-- … hence an explicit `build_role_links` at any point of such a history succeeds and leaves every link
+where it was: same edges in every domain (so, by `same_links_same_answers`, the same answers to every
+role query and `g` test while hierarchies stay below the depth limit) -/
+theorem rebuild_after_history (e : Enforcer) (h : GSync e) :
+    ∃ e', e.buildRoleLinks = (e', none) ∧ GSync e' ∧
+      ∀ dd x y, (x, y) ∈ (e'.rm.graph dd).edges ↔ (x, y) ∈ (e.rm.graph dd).edges := by
+  obtain ⟨d, hg, ha, hwf, hsync, hw⟩ := h
+  obtain ⟨rm', h1, h2, h3⟩ := rebuild_synced d.arity ha e.rm d rfl hwf
+  refine ⟨{ e with rm := rm' }, ?_, ⟨d, hg, ha, hwf, h2, h3⟩, ?_⟩
+  · unfold Enforcer.buildRoleLinks
+    rw [hg, h1]
+  · intro dd x y
+    exact synced_same_links d.arity rm' e.rm d.policy h2 hsync dd x y
+
+/-! ### clear_policy, build_role_links and load_policy -/
+
+/-- a full rebuild that succeeds has seen only rules that are long enough -/
+theorem buildGo_ok_wf (d : PolDef) : ∀ (rules : List Rule) (rm rm' : RoleMgr String),
+    buildDef.go d rm rules = (rm', none) → WFRules d.arity rules := by
+  intro rules
+  induction rules with
+  | nil => intro _ _ _ r hr; cases hr
+  | cons rule rest ih =>
+    intro rm rm' h
+    simp only [buildDef.go] at h
+    cases hl : linkOp d.arity true rm rule with
+    | error k => rw [hl] at h; simp at h
+    | ok rm1 =>
+      rw [hl] at h
+      have hlen : d.arity ≤ rule.length := by
+        by_cases hc : rule.length < d.arity
+        · unfold linkOp at hl; simp [hc] at hl
+        · omega
+      intro r hr
+      rcases List.mem_cons.mp hr with rfl | hr'
+      · exact hlen
+      · exact ih rm1 rm' h r hr'
+
+/-- the graph after a rebuild of a single definition: in sync exactly when the rebuild reports success -/
+theorem rebuild_single (rm : RoleMgr String) (d : PolDef) (ha : d.arity = 2 ∨ d.arity = 3) :
+    (∃ rm', buildRoleLinks rm [d] = (rm', none) ∧ WFRules d.arity d.policy ∧ SyncedWith d.arity rm' d.policy ∧ rm'.WF) ∨
+    (∃ rm' k, buildRoleLinks rm [d] = (rm', some k)) := by
+  cases hr : buildRoleLinks rm [d] with
+  | mk rm' res =>
+    cases res with
+    | some k => exact Or.inr ⟨rm', k, rfl⟩
+    | none =>
+      left
+      have h2 : ¬ d.arity < 2 := by rcases ha with h | h <;> omega
+      have hwf : WFRules d.arity d.policy := by
+        simp only [buildRoleLinks, buildRoleLinks.go, buildDef, h2, if_false] at hr
+        cases hg : buildDef.go d rm.clear d.policy with
+        | mk rm1 r1 =>
+          rw [hg] at hr
+          cases r1 with
+          | none => exact buildGo_ok_wf d d.policy rm.clear rm1 hg
+          | some k => simp at hr
+      obtain ⟨rm2, h1, hs, hw⟩ := rebuild_synced d.arity ha rm d rfl hwf
+      rw [hr] at h1
+      have : rm' = rm2 := by simpa using congrArg Prod.fst h1
+      subst this
+      exact ⟨rm', rfl, hwf, hs, hw⟩
+
+/-- the shape the invariant needs of a store: a single role definition of the given key and arity -/
+def GShape (s : Store) (key : String) (arity : Nat) : Prop := ∃ d, s.g = [d] ∧ d.key = key ∧ d.arity = arity
+
+theorem gshape_update (s : Store) (key : String) (arity : Nat) (h : GShape s key arity) (sec pt : String)
+    (f : List Rule → List Rule) :
+    GShape (s.update sec pt (fun d => { d with policy := f d.policy })) key arity := by
+  obtain ⟨d, hg, hk, ha⟩ := h
+  unfold Store.update Store.setSec Store.sec updDef
+  by_cases h1 : sec = "p"
+  · subst h1; exact ⟨d, by simpa using hg, hk, ha⟩
+  · by_cases h2 : sec = "g"
+    · subst h2
+      simp only [h1, if_false, if_true, hg, List.map_cons, List.map_nil]
+      by_cases hp : d.key = pt
+      · exact ⟨{ d with policy := f d.policy }, by simp [hp], hk, ha⟩
+      · exact ⟨d, by simp [hp], hk, ha⟩
+    · simp only [h1, h2, if_false]; exact ⟨d, hg, hk, ha⟩
+
+theorem gshape_loadRecords (recs : List (String × String × Rule)) (s : Store) (key : String) (arity : Nat)
+    (h : GShape s key arity) : GShape (loadRecords s recs) key arity := by
+  unfold loadRecords
+  induction recs generalizing s with
+  | nil => exact h
+  | cons r rest ih =>
+    obtain ⟨sec, pt, rule⟩ := r
+    simp only [List.foldl_cons]
+    apply ih
+    unfold Store.loadInsert
+    exact gshape_update s key arity h sec pt (fun pol => insertMove pol rule)
+
+theorem gshape_clear (s : Store) (key : String) (arity : Nat) (h : GShape s key arity) : GShape s.clear key arity := by
+  obtain ⟨d, hg, hk, ha⟩ := h
+  exact ⟨{ d with policy := [] }, by simp [Store.clear, hg], hk, ha⟩
+
+theorem gshape_truncate (s : Store) (key : String) (arity : Nat) (h : GShape s key arity) (k : Nat) :
+    GShape (s.truncate k) key arity := by
+  obtain ⟨d, hg, hk, ha⟩ := h
+  unfold Store.truncate
+  simp only [hg, truncDefs]
+  exact ⟨_, rfl, hk, ha⟩
+
+/-- a rebuild over any store of the right shape either fails or establishes the invariant -/
+theorem gsync_of_build (x : Enforcer) (key : String) (arity : Nat) (ha : arity = 2 ∨ arity = 3)
+    (hs : GShape x.store key arity) :
+    (x.buildRoleLinks.2 = none ∧ GSync x.buildRoleLinks.1) ∨ (∃ k, x.buildRoleLinks.2 = some k) := by
+  obtain ⟨d, hg, _, hd⟩ := hs
+  have ha' : d.arity = 2 ∨ d.arity = 3 := by rw [hd]; exact ha
+  unfold Enforcer.buildRoleLinks
+  rw [hg]
+  rcases rebuild_single x.rm d ha' with ⟨rm', h1, hwf, hsy, hw⟩ | ⟨rm', k, h1⟩
+  · left; rw [h1]; exact ⟨rfl, d, hg, ha', hwf, hsy, hw⟩
+  · right; rw [h1]; exact ⟨k, rfl⟩
+
+/-- an explicit `build_role_links` keeps the invariant -/
+theorem gsync_build (e : Enforcer) (h : GSync e) : GSync e.buildRoleLinks.1 := by
+  obtain ⟨e', h1, h2, _⟩ := rebuild_after_history e h
+  rw [h1]; exact h2
+
+/-- **`load_policy` / `load_filtered_policy` keep the invariant whatever the adapter delivers**: if everything
+arrives and links, the graph is rebuilt from the new rules; if the adapter fails, delivers only a part, or a
+delivered grouping rule is too short to be linked, the previous rules come back and the graph is rebuilt from
+them -/
+theorem gsync_finishLoad (e : Enforcer) (h : GSync e) (hb : e.autoBuild = true) (a : AdapterSt) (s : Store)
+    (ok : Option Unit) (hs : ∀ d, e.store.g = [d] → GShape s d.key d.arity) :
+    GSync (e.finishLoad e.store a s ok).1 := by
+  obtain ⟨d, hg, ha, hwf, hsync, hw⟩ := h
+  have hshape := hs d hg
+  -- restoring the previous rules and rebuilding re-establishes the invariant, whatever the graph holds by then
+  have hrestore : ∀ (x : Enforcer), GSync ({ x with store := e.store } : Enforcer).buildRoleLinks.1 := by
+    intro x
+    rcases gsync_of_build { x with store := e.store } d.key d.arity ha ⟨d, hg, rfl, rfl⟩ with ⟨_, h2⟩ | ⟨k, hk⟩
+    · exact h2
+    · exfalso
+      obtain ⟨rm', h1, _, _⟩ := rebuild_synced d.arity ha x.rm d rfl hwf
+      unfold Enforcer.buildRoleLinks at hk
+      simp only [hg] at hk
+      rw [h1] at hk
+      cases hk
+  unfold Enforcer.finishLoad
+  have hx1 : ({ e with adapter := a, store := s } : Enforcer).autoBuild = true := hb
+  have hx2 : GShape ({ e with adapter := a, store := s } : Enforcer).store d.key d.arity := hshape
+  generalize ({ e with adapter := a, store := s } : Enforcer) = x at hx1 hx2 ⊢
+  cases ok with
+  | none =>
+    simp only [hx1, if_true]
+    exact hrestore _
+  | some u =>
+    simp only [hx1, if_true]
+    rcases gsync_of_build x d.key d.arity ha hx2 with ⟨h1, h2⟩ | ⟨k, hk⟩
+    · cases hbr : x.buildRoleLinks with
+      | mk e2 res =>
+        rw [hbr] at h1 h2
+        have hres : res = none := h1
+        subst hres
+        exact h2
+    · cases hbr : x.buildRoleLinks with
+      | mk e2 res =>
+        rw [hbr] at hk
+        have hres : res = some k := hk
+        subst hres
+        have he2 : e2.autoBuild = true := by
+          have : e2 = x.buildRoleLinks.1 := by rw [hbr]
+          rw [this]; exact hx1
+        simp only [he2, if_true]
+        exact hrestore e2
+
+theorem gsync_load (e : Enforcer) (h : GSync e) (hb : e.autoBuild = true) : GSync e.loadPolicy.1 := by
+  unfold Enforcer.loadPolicy
+  apply gsync_finishLoad e h hb
+  intro d hg
+  have hc : GShape e.store.clear d.key d.arity := gshape_clear _ _ _ ⟨d, hg, rfl, rfl⟩
+  unfold AdapterSt.load
+  simp only
+  split
+  · exact hc
+  · exact hc
+  · exact gshape_truncate _ _ _ (gshape_loadRecords _ _ _ _ hc) _
+  · exact gshape_loadRecords _ _ _ _ hc
+
+theorem gsync_loadFiltered (e : Enforcer) (h : GSync e) (hb : e.autoBuild = true) (fp fg : List String) :
+    GSync (e.loadFilteredPolicy fp fg).1 := by
+  unfold Enforcer.loadFilteredPolicy
+  apply gsync_finishLoad e h hb
+  intro d hg
+  have hc : GShape e.store.clear d.key d.arity := gshape_clear _ _ _ ⟨d, hg, rfl, rfl⟩
+  unfold AdapterSt.loadFiltered
+  simp only
+  split
+  · exact hc
+  · exact hc
+  · exact gshape_truncate _ _ _ (gshape_loadRecords _ _ _ _ hc) _
+  · exact gshape_loadRecords _ _ _ _ hc
+
+/-- `clear_policy` (auto-save off): no rules, no links -/
+theorem gsync_clear (e : Enforcer) (h : GSync e) (hs : e.autoSave = false) (hb : e.autoBuild = true) :
+    GSync e.clearPolicy.1 := by
+  obtain ⟨d, hg, ha, hwf, hsync, hw⟩ := h
+  unfold Enforcer.clearPolicy
+  rw [if_neg (by rw [hs]; exact Bool.false_ne_true)]
+  simp only []
+  rw [if_pos hb]
+  have hx1 : ({ e with store := e.store.clear } : Enforcer).autoBuild = true := hb
+  have hx2 : GShape ({ e with store := e.store.clear } : Enforcer).store d.key d.arity := gshape_clear _ _ _ ⟨d, hg, rfl, rfl⟩
+  have hx3 : ({ e with store := e.store.clear } : Enforcer).store.g = [{ d with policy := [] }] := by
+    simp [Store.clear, hg]
+  have hx4 : ({ e with store := e.store.clear } : Enforcer).rm = e.rm := rfl
+  generalize ({ e with store := e.store.clear } : Enforcer) = x at hx1 hx2 hx3 hx4 ⊢
+  rcases gsync_of_build x d.key d.arity ha hx2 with ⟨h1, h2⟩ | ⟨k, hk⟩
+  · cases hbr : x.buildRoleLinks with
+    | mk e2 res =>
+      rw [hbr] at h1 h2
+      have hres : res = none := h1
+      subst hres
+      exact gsync_emit _ _ h2
+  · exfalso
+    obtain ⟨rm', h1, _, _⟩ := rebuild_synced d.arity ha x.rm { d with policy := [] } rfl (by intro r hr; cases hr)
+    unfold Enforcer.buildRoleLinks at hk
+    simp only at hk
+    rw [hx3, h1] at hk
+    cases hk
+
+theorem flags_finishLoad (e : Enforcer) (hb : e.autoBuild = true) (old : Store) (a : AdapterSt) (s : Store) (ok : Option Unit) :
+    (e.finishLoad old a s ok).1.autoSave = e.autoSave ∧ (e.finishLoad old a s ok).1.autoBuild = true := by
+  unfold Enforcer.finishLoad
+  have hx1 : ({ e with adapter := a, store := s } : Enforcer).autoBuild = true := hb
+  have hx2 : ({ e with adapter := a, store := s } : Enforcer).autoSave = e.autoSave := rfl
+  generalize ({ e with adapter := a, store := s } : Enforcer) = x at hx1 hx2 ⊢
+  cases ok with
+  | none =>
+    simp only [hx1, if_true]
+    exact ⟨hx2, rfl⟩
+  | some u =>
+    simp only [hx1, if_true]
+    cases hbr : x.buildRoleLinks with
+    | mk e2 res =>
+      have he2 : e2 = x.buildRoleLinks.1 := by rw [hbr]
+      have h1 : e2.autoSave = e.autoSave := by rw [he2]; exact hx2
+      have h2 : e2.autoBuild = true := by rw [he2]; exact hx1
+      cases res with
+      | none => exact ⟨h1, h2⟩
+      | some k =>
+        simp only [h2, if_true]
+        exact ⟨h1, rfl⟩
+
+theorem flags_clear (e : Enforcer) (hs : e.autoSave = false) (hb : e.autoBuild = true) :
+    e.clearPolicy.1.autoSave = false ∧ e.clearPolicy.1.autoBuild = true := by
+  unfold Enforcer.clearPolicy
+  rw [if_neg (by rw [hs]; exact Bool.false_ne_true)]
+  simp only []
+  rw [if_pos hb]
+  have hx1 : ({ e with store := e.store.clear } : Enforcer).autoBuild = true := hb
+  have hx2 : ({ e with store := e.store.clear } : Enforcer).autoSave = false := hs
+  generalize ({ e with store := e.store.clear } : Enforcer) = x at hx1 hx2 ⊢
+  cases hbr : x.buildRoleLinks with
+  | mk e2 res =>
+    have he2 : e2 = x.buildRoleLinks.1 := by rw [hbr]
+    have h1 : e2.autoSave = false := by rw [he2]; exact hx2
+    have h2 : e2.autoBuild = true := by rw [he2]; exact hx1
+    cases res with
+    | some k => exact ⟨h1, h2⟩
+    | none =>
+      simp only
+      unfold Enforcer.emit
+      split <;> exact ⟨h1, h2⟩
+
+/-- **the graph reflects the stored grouping rules after every history** of management calls — single and batch additions and removals, filtered
+removals, `load_policy`, `load_filtered_policy` (whatever the adapter delivers, failures included), `clear_policy` and
+explicit rebuilds (auto-build on; the adapter not involved: auto-save off —
 with auto-save on an accepted call runs the same model-side code and a vetoed one changes nothing, see C10) -/
 theorem gsync_history (ops : List GOp) (e : Enforcer) (h : GSync e) (hs : e.autoSave = false) (hb : e.autoBuild = true)
     (hok : ∀ (pre : List GOp) (op : GOp) (post : List GOp), ops = pre ++ op :: post → op.Ok (pre.foldl GOp.apply e)) :
@@ -696,20 +977,22 @@ theorem gsync_history (ops : List GOp) (e : Enforcer) (h : GSync e) (hs : e.auto
       rcases hop with h1 | h1
       · subst h1; exact (gsync_batch_p e h hs pt [] idx vals).2.2
       · subst h1; exact gsync_removeFiltered_g e h hs hb pt idx vals
-
-/-- … hence an explicit `build_role_links` at any point of such a history succeeds and leaves every link
-where it was: same edges in every domain (so, by `same_links_same_answers`, the same answers to every
-role query and `g` test while hierarchies stay below the depth limit) -/
-theorem rebuild_after_history (e : Enforcer) (h : GSync e) :
-    ∃ e', e.buildRoleLinks = (e', none) ∧ GSync e' ∧
-      ∀ dd x y, (x, y) ∈ (e'.rm.graph dd).edges ↔ (x, y) ∈ (e.rm.graph dd).edges := by
-  obtain ⟨d, hg, ha, hwf, hsync, hw⟩ := h
-  obtain ⟨rm', h1, h2, h3⟩ := rebuild_synced d.arity ha e.rm d rfl hwf
-  refine ⟨{ e with rm := rm' }, ?_, ⟨d, hg, ha, hwf, h2, h3⟩, ?_⟩
-  · unfold Enforcer.buildRoleLinks
-    rw [hg, h1]
-  · intro dd x y
-    exact synced_same_links d.arity rm' e.rm d.policy h2 hsync dd x y
+    | load =>
+      obtain ⟨f1, f2⟩ := flags_finishLoad e hb e.store (e.adapter.load e.store.clear).1 (e.adapter.load e.store.clear).2.1
+        (e.adapter.load e.store.clear).2.2
+      exact ih _ (gsync_load e h hb) (by show e.loadPolicy.1.autoSave = false; unfold Enforcer.loadPolicy; rw [f1]; exact hs)
+        (by show e.loadPolicy.1.autoBuild = true; unfold Enforcer.loadPolicy; exact f2) hnext
+    | loadFiltered fp fg =>
+      obtain ⟨f1, f2⟩ := flags_finishLoad e hb e.store (e.adapter.loadFiltered e.store.clear fp fg).1
+        (e.adapter.loadFiltered e.store.clear fp fg).2.1 (e.adapter.loadFiltered e.store.clear fp fg).2.2
+      exact ih _ (gsync_loadFiltered e h hb fp fg)
+        (by show (e.loadFilteredPolicy fp fg).1.autoSave = false; unfold Enforcer.loadFilteredPolicy; rw [f1]; exact hs)
+        (by show (e.loadFilteredPolicy fp fg).1.autoBuild = true; unfold Enforcer.loadFilteredPolicy; exact f2) hnext
+    | clear =>
+      obtain ⟨f1, f2⟩ := flags_clear e hs hb
+      exact ih _ (gsync_clear e h hs hb) f1 f2 hnext
+    | build =>
+      exact ih _ (gsync_build e h) hs hb hnext
 
 /-- **construction over a filtered adapter** (the model handed in already holds rules, regression for F22):
 the constructor does not load, keeps those rules and builds their links — the invariant holds from the start -/
